@@ -265,25 +265,26 @@ func (rsc *service) updatePodGPUGroup(
 }
 
 func (rsc *service) RemovePodGpuGroupsConnection(ctx context.Context, pod *v1.Pod) error {
-	var patch []map[string]string
+	// A JSON merge patch with null values is idempotent: labels that were set in memory but never
+	// stored (their patch failed) do not make the removal of the stored ones fail.
+	labels := map[string]interface{}{}
 	for labelKey := range pod.Labels {
 		if labelKey == constants.GPUGroup || strings.HasPrefix(labelKey, constants.MultiGpuGroupLabelPrefix) {
-			patch = append(patch, map[string]string{
-				"op":   "remove",
-				"path": fmt.Sprintf("/metadata/labels/%s", escapeJSONPointer(labelKey)),
-			})
+			labels[labelKey] = nil
 		}
 	}
+	if len(labels) == 0 {
+		return nil
+	}
 
-	patchBytes, err := json.Marshal(patch)
+	patchBytes, err := json.Marshal(map[string]interface{}{
+		"metadata": map[string]interface{}{"labels": labels},
+	})
 	if err != nil {
 		return fmt.Errorf("failed to generate a patch for pod gpu-group removal. %w", err)
 	}
 
-	if err := rsc.kubeClient.Patch(ctx, pod, client.RawPatch(types.JSONPatchType, patchBytes)); err != nil {
-		return err
-	}
-	return nil
+	return rsc.kubeClient.Patch(ctx, pod, client.RawPatch(types.MergePatchType, patchBytes))
 }
 
 // escapeJSONPointer escapes a string for use in a JSON Pointer path (RFC 6901).
